@@ -23,6 +23,7 @@ def configs(tier):
     out = [{"part": "rule", "criterion": c, "evaluator": e} for (c, e) in
            (("relative", "metric"), ("absolute", "metric"), ("relative", "observable"), ("absolute", "observable"), ("variance", "observable"))]
     out.append({"part": "constructor"})
+    out.append({"part": "non-finite"})
     # the rule is proved against the evaluators' contract (records = completed evaluations, in order, one per scheduled
     # epoch; accessors); that the real evaluators meet it is C17's obligation set, shared here because the statement
     # depends on it
@@ -39,6 +40,8 @@ def run_config(ctx, cfg):
     if cfg["part"] == "evaluator-contract":
         from lemmas import C17
         return C17.run_config(ctx, {"cb": cfg["cb"]})
+    if cfg["part"] == "non-finite":
+        return _non_finite(ctx)
     if cfg["part"] == "rule":
         return _rule(ctx, cfg)
     return _constructor(ctx)
@@ -120,6 +123,59 @@ def _rule(ctx, cfg):
     vc.explore(run, "criterion=%s evaluator=%s" % (crit, kind))
     vc.flush()
     ctx.holds("exploration/paths > 0", vc.paths > 0, str(vc.paths))
+
+
+def _non_finite(ctx):
+    """The reals of the symbolic run have no NaN / inf.  Records that hold them (a diverged loss, inf - inf, a constant
+    observable: zero variance and unchanged mean, 0/0) are decided here on the real class with numbers: training stops
+    iff the deviation, computed in IEEE arithmetic, *is smaller than* the tolerance - an undefined deviation never is."""
+    import warnings
+    import numpy as np
+    from contracts.ghosts import GhostState
+    from qucumber.callbacks import EarlyStopping, MetricEvaluator, ObservableEvaluator
+    from qucumber.observables import SigmaZ
+    ctx.under_contract("EarlyStopping.on_epoch_end", "EarlyStopping._relative_change", "EarlyStopping._absolute_change", "EarlyStopping._variance_scaled_abs_change")
+    nan, inf = float("nan"), float("inf")
+
+    def deviation(crit, ref, cur, var):
+        ch = ref - cur
+        if crit == "absolute":
+            return abs(ch)
+        if crit == "relative":
+            if ref == 0:
+                return 0.0 if ch == 0 else inf
+            return abs(ch / ref)
+        with np.errstate(all="ignore"):
+            return float(abs(ch) / np.sqrt(var))
+    seqs = [("nan in the middle", [1.0, nan, 0.5, 0.5, 0.5], [1.0] * 5), ("nan reference", [nan, 1.0, 1.0], [1.0] * 3), ("nan current", [1.0, 1.0, nan], [1.0] * 3),
+            ("inf - inf", [inf, inf, inf], [1.0] * 3), ("inf reference", [inf, 1.0, 1.0], [1.0] * 3), ("-inf then finite", [-inf, 2.0, 2.0], [1.0] * 3),
+            ("constant observable: zero variance, unchanged mean", [0.25, 0.25, 0.25], [0.0] * 3), ("zero variance, changed mean", [0.25, 0.5, 0.75], [0.0] * 3),
+            ("nan variance", [0.25, 0.25, 0.25], [nan] * 3), ("finite control", [1.0, 0.99, 0.985], [0.04] * 3)]
+    with warnings.catch_warnings():
+        warnings.simplefilter("ignore")
+        for crit in ("absolute", "relative", "variance"):
+            for tag, vals, vars_ in seqs:
+                for patience in (1, 2):
+                    for tol in (0.1, inf, 0.0):
+                        if crit == "variance":
+                            ev = ObservableEvaluator(1, [SigmaZ()])
+                            ev.past_values = [(i + 1, {"SigmaZ": {"mean": v, "variance": w, "std_error": 0.0, "num_samples": 10}}) for i, (v, w) in enumerate(zip(vals, vars_))]
+                            name = "SigmaZ"
+                        else:
+                            ev = MetricEvaluator(1, {"m": lambda s: 0.0})
+                            ev.past_values = [(i + 1, {"m": v}) for i, v in enumerate(vals)]
+                            name = "m"
+                        es = EarlyStopping(1, tol, patience, ev, name, criterion=crit)
+                        st_ = GhostState(stop=False)
+                        es.on_epoch_end(st_, len(vals))
+                        did = len(st_.stop_writes) > 0
+                        if len(vals) > patience:
+                            dv = deviation(crit, vals[-patience - 1], vals[-1], vars_[-patience - 1])
+                            want = bool(dv < tol)
+                        else:
+                            dv, want = None, False
+                        ctx.holds("non-finite/%s criterion, %s, patience %d, tolerance %r: stops iff the deviation is smaller than the tolerance" % (crit, tag, patience, tol),
+                                  did == want, "deviation %r, stopped=%s" % (dv, did))
 
 
 def _constructor(ctx):
